@@ -107,3 +107,5 @@ impl<K> View for BTreeSet<K> { type V = Set<K>; uninterp spec fn view(&self) -> 
 impl<K, V> BTreeMap<K, V> {
     #[verifier::external_body] pub fn get(&self, k: &K) -> (r: Option<&V>) ensures (r is Some) == self@.dom().contains(*k), r is Some ==> *r->Some_0 == self@[*k] { unimplemented!() }
 }
+// String::clone / to_string on a String: an equal value
+#[verifier::external_body] pub fn string_to_string(s: &String) -> (r: String) ensures r == *s { unimplemented!() }
